@@ -343,6 +343,7 @@ func c18History(run *mon.Run, hi int, r *rand.Rand, statesSeen map[thrState]bool
 		jit := rand.New(rand.NewPCG(r.Uint64(), uint64(c)))
 		go func(c int) {
 			defer wg.Done()
+			defer run.Protect("c18 worker")
 			<-start
 			for _, p := range plans[c] {
 				for j := jit.IntN(3); j > 0; j-- {
@@ -563,6 +564,7 @@ func c18Core(run *mon.Run) {
 			go func(hi int) {
 				defer wg.Done()
 				defer func() { <-sem }()
+				defer run.Protect("c18 worker")
 				defer func() {
 					if e := recover(); e != nil {
 						run.Violate("C18:panic:"+mon.PanicSite(), fmt.Sprintf("panic during a concurrent history: %v", e), map[string]any{"history": hi})
